@@ -34,8 +34,8 @@ class C20(C.ProgramDiff):
     rule = ('random programs with all control constructs and meta-calls; a generated non-empty subset of the FACT '
             'predicates is removed from the text and registered as Python generator functions that unify their '
             'arguments with each row (fresh variables for non-ground rows) and yield a generated True/False per '
-            'solution; registration with inferred arity (fixed signature), explicit arity (fixed signature or *args function), or '
-            'variadic (*args, arity=-1); optionally dynamic facts of the same name/arity are asserted beside them; optionally the '
+            'solution; registration with inferred arity (fixed signature), explicit arity (fixed signature or *args function), inferred arity of a functools.wraps-decorated function, or '
+            'variadic (*args, arity=-1); sometimes the predicates are queried once before they are registered; optionally dynamic facts of the same name/arity are asserted beside them; optionally the '
             'function raises an exception (private class, TypeError, ValueError, KeyError / RuntimeError subclasses, AttributeError) at its n-th solution. Oracles: answers of every query on the mixed '
             'engine = answers on the all-compiled engine = reference R; the function saw its arguments in call order '
             'as engine terms reifying to the terms R passes; a raised exception reaches the consumer with the same '
@@ -62,7 +62,7 @@ class C20(C.ProgramDiff):
         for k in factkeys:
             if src.n(3) != 0 or not replaced and k == factkeys[-1]:
                 rows = [list(h[2]) if h[0] == 'f' else [] for h, _ in groups[k]]
-                style = src.pick(['inferred', 'explicit', 'variadic', 'explicit-varargs'])
+                style = src.pick(['inferred', 'explicit', 'variadic', 'explicit-varargs', 'inferred-wrapped'])
                 if style == 'variadic' and any(r['name'] == k[0] and r['style'] == 'variadic' for r in replaced):
                     style = 'explicit'      # one variadic registration per name (a second would replace the first)
                 yields = [bool(src.n(2)) for _ in range(1 + src.n(3))]
@@ -78,7 +78,7 @@ class C20(C.ProgramDiff):
         mixed = [(h, b) for h, b in clauses if (h[1], len(h[2]) if h[0] == 'f' else 0) not in rk]
         queries = [gen.gen_query(src, preds, self.cfg, clauses) for _ in range(3)]
         return {'clauses': clauses, 'text': gen.program_text(clauses), 'mixed_text': gen.program_text(mixed) if mixed else '',
-                'replaced': replaced, 'dyn': dyn, 'queries': queries}
+                'replaced': replaced, 'dyn': dyn, 'queries': queries, 'probe_first': src.n(3) == 2}
 
     def sample_view(self, case):
         return {'text': case['text'], 'python_predicates': [{k: (v if k != 'rows' else [[show(tt(x)) for x in r] for r in v]) for k, v in r.items()} for r in case['replaced']],
@@ -186,10 +186,16 @@ class C20(C.ProgramDiff):
 
             def setup_mixed(yp):
                 setup_dyn(yp)
+                if case.get('probe_first'):
+                    # the predicates are looked up once BEFORE they are registered (late registration must still work)
+                    for r in replaced:
+                        for _ in yp.query(r['name'], [yp.variable() for _ in range(r['arity'])]):
+                            break
+                    yp._n = 0
                 for r in replaced:
                     rows = [tuple(x) for x in tt(r['rows'])]
                     fn = self.make_func(yp, r, rows, log, counter)
-                    if r['style'] == 'inferred':
+                    if r['style'] in ('inferred', 'inferred-wrapped'):
                         yp.register_function(r['name'], fn)
                     elif r['style'] in ('explicit', 'explicit-varargs'):
                         yp.register_function(r['name'], fn, arity=r['arity'])
@@ -287,6 +293,15 @@ class C20(C.ProgramDiff):
         src = 'def f(%s):\n    return solutions([%s])\n' % (', '.join(names), ', '.join(names))
         ns = {'solutions': solutions}
         exec(src, ns)
+        if r['style'] == 'inferred-wrapped':
+            # an ordinary transparent decorator: the arity is that of the wrapped function
+            import functools
+            inner = ns['f']
+
+            @functools.wraps(inner)
+            def wrapper(*args):
+                return inner(*args)
+            return wrapper
         return ns['f']
 
     def run_mixed(self, code, q, st, ref, steps, setup):
